@@ -515,9 +515,45 @@ func (f *Func) reachingDef(obj types.Object, id *ast.Ident, defs []Def) (Def, bo
 	if f.Body == nil || id.Pos() < f.Body.Pos() || id.End() > f.Body.End() {
 		return Def{}, false
 	}
+	if f.Lit != nil && f.Parent != nil {
+		// a captured variable whose definitions all lie outside the literal: the value the literal
+		// sees is the definition that reaches the literal in the enclosing function, provided the
+		// variable is not redefined once the literal exists (other than by a new declaration of it,
+		// i.e. the next iteration's variable).
+		outside := true
+		for _, d := range defs {
+			if d.Node.Pos() >= f.Lit.Pos() && d.Node.End() <= f.Lit.End() {
+				outside = false
+			}
+		}
+		if outside {
+			if d, ok := f.Parent.reachingAtLit(f.Lit, defs); ok {
+				f.rdCache[id] = &d
+				return d, true
+			}
+			return Def{}, false
+		}
+	}
 	use := f.Find(func(n ast.Node) bool { return n == ast.Node(id) })
 	if len(use) != 1 {
 		return Def{}, false
+	}
+	// definitions made inside a directly deferred literal of f run when f exits: they reach no use
+	// in f's own body
+	if dl := deferredLits(f); len(dl) > 0 {
+		var kept []Def
+		for _, d := range defs {
+			inDeferred := false
+			for _, l := range dl {
+				if d.Node.Pos() >= l.Lit.Pos() && d.Node.End() <= l.Lit.End() {
+					inDeferred = true
+				}
+			}
+			if !inDeferred {
+				kept = append(kept, d)
+			}
+		}
+		defs = kept
 	}
 	sites := make([]Site, len(defs))
 	for i, d := range defs {
@@ -545,7 +581,7 @@ func (f *Func) reachingDef(obj types.Object, id *ast.Ident, defs []Def) (Def, bo
 			// the use is part of the defining statement itself (x = f(x)): the right-hand side sees
 			// the earlier definitions, not this one, unless a loop brings it back
 		}
-		if pt, _ := g.Reach(sites[i].After(), Cut{Stop: isDef}, atSite(use[0])); pt != nil {
+		if pt, _ := g.ReachAfter(sites[i], Cut{Stop: isDef}, atSite(use[0])); pt != nil {
 			reaching = append(reaching, i)
 		}
 	}
@@ -555,6 +591,92 @@ func (f *Func) reachingDef(obj types.Object, id *ast.Ident, defs []Def) (Def, bo
 	d := defs[reaching[0]]
 	f.rdCache[id] = &d
 	return d, true
+}
+
+// reachingAtLit answers reachingDef for a variable captured by the literal lit,
+// which is created in f (or in a literal nested in f's own literals).
+func (f *Func) reachingAtLit(lit *ast.FuncLit, defs []Def) (Def, bool) {
+	at := f.Find(func(n ast.Node) bool { return n == ast.Node(lit) })
+	if len(at) != 1 {
+		return Def{}, false
+	}
+	sites := make([]Site, len(defs))
+	for i, d := range defs {
+		if d.Kind != DefAssign && d.Kind != DefZero {
+			return Def{}, false
+		}
+		ds := f.Find(func(n ast.Node) bool { return n == d.Node })
+		if len(ds) != 1 {
+			return Def{}, false
+		}
+		sites[i] = ds[0]
+	}
+	g := f.Graph()
+	isDef := func(p Point, _ ast.Node) bool {
+		for _, s := range sites {
+			if s.P == p {
+				return true
+			}
+		}
+		return false
+	}
+	isDecl := func(p Point, _ ast.Node) bool {
+		for i, s := range sites {
+			if s.P == p && defs[i].Kind == DefZero {
+				return true
+			}
+		}
+		return false
+	}
+	var reaching []int
+	for i := range defs {
+		if pt, _ := g.ReachAfter(sites[i], Cut{Stop: isDef}, atSite(at[0])); pt != nil {
+			reaching = append(reaching, i)
+		}
+	}
+	if len(reaching) != 1 {
+		return Def{}, false
+	}
+	// no redefinition of the same variable after the literal was created
+	for i := range defs {
+		if defs[i].Kind == DefZero {
+			continue
+		}
+		if pt, _ := g.Reach(at[0].After(), Cut{Stop: isDecl}, atSite(sites[i])); pt != nil {
+			return Def{}, false
+		}
+	}
+	return defs[reaching[0]], true
+}
+
+// SourceDefs lists the definitions that can supply the value of obj: its own
+// definitions, with every plain copy of another local variable (x = y) replaced
+// by that variable's source definitions. Flow-insensitive, so an
+// over-approximation of what reaches any one use.
+func (f *Func) SourceDefs(obj types.Object) []Def {
+	info := f.Info()
+	seen := map[types.Object]bool{}
+	var out []Def
+	var walk func(o types.Object)
+	walk = func(o types.Object) {
+		if seen[o] {
+			return
+		}
+		seen[o] = true
+		for _, d := range f.Defs(o) {
+			if d.Kind == DefAssign && d.Idx < 0 && d.Rhs != nil {
+				if id, ok := ast.Unparen(d.Rhs).(*ast.Ident); ok {
+					if src := objOf(info, id); src != nil && isLocal(src) {
+						walk(src)
+						continue
+					}
+				}
+			}
+			out = append(out, d)
+		}
+	}
+	walk(obj)
+	return out
 }
 
 // copyRoot follows plain copies (x := y) from an identifier to the variable the
@@ -572,6 +694,11 @@ func (f *Func) copyRoot(e ast.Expr) ast.Expr {
 			return e
 		}
 		defs := f.Defs(obj)
+		if len(defs) > 1 {
+			if d, ok := f.reachingDef(obj, id, defs); ok {
+				defs = []Def{d}
+			}
+		}
 		if len(defs) != 1 || defs[0].Kind != DefAssign || defs[0].Idx >= 0 {
 			return e
 		}
